@@ -32,6 +32,52 @@ pub fn call(op: &str, e: &Ev) -> Option<Out> {
             cryptoxide::scrypt::scrypt(&get_bytes(e, "pw"), &get_bytes(e, "salt"), &params, &mut out);
             Out::Val(out)
         }
+        "argon2" => {
+            use cryptoxide::kdf::argon2::{argon2, argon2_at, Params};
+            let base = match get_usize(e, "type") {
+                0 => Params::argon2d(),
+                1 => Params::argon2i(),
+                2 => Params::argon2id(),
+                _ => panic!("harness: unknown argon2 type"),
+            };
+            // a refused parameter (Err) is logged like a panic: the request was refused
+            let params = base
+                .parallelism(get_limbs_u64(e, "p") as u32)
+                .and_then(|q| q.memory_kb(get_limbs_u64(e, "m") as u32))
+                .and_then(|q| q.iterations(get_limbs_u64(e, "t") as u32))
+                .and_then(|q| q.version(get_usize(e, "version") as u32));
+            let params = match params {
+                Ok(p) => p,
+                Err(_) => return Some(Out::Panic),
+            };
+            if e.contains_key("params_only") {
+                return Some(Out::None);
+            }
+            let (pw, salt, key, aad) = (get_bytes(e, "pw"), get_bytes(e, "salt"), get_bytes(e, "key"), get_bytes(e, "aad"));
+            let n = get_usize(e, "n");
+            if e.get("api").and_then(|v| v.as_str()) == Some("arr") {
+                macro_rules! arr {
+                    ($t:literal) => {
+                        Out::Val(argon2::<$t>(&params, &pw, &salt, &key, &aad).to_vec())
+                    };
+                }
+                match n {
+                    4 => arr!(4),
+                    16 => arr!(16),
+                    32 => arr!(32),
+                    64 => arr!(64),
+                    65 => arr!(65),
+                    96 => arr!(96),
+                    100 => arr!(100),
+                    128 => arr!(128),
+                    _ => panic!("harness: argon2::<{}> not instantiated", n),
+                }
+            } else {
+                let mut tag = vec![0xa5u8; n];
+                argon2_at(&params, &pw, &salt, &key, &aad, &mut tag);
+                Out::Val(tag)
+            }
+        }
         _ => return None,
     })
 }
@@ -40,7 +86,11 @@ pub fn run(_h: &Ev, evs: &mut Vec<Value>) {
     for ev in evs.iter_mut() {
         let e = ev.as_object().unwrap().clone();
         let op = get_str(&e, "op").to_string();
-        let o = guarded(|| call(&op, &e).unwrap_or_else(|| Out::Bad(format!("harness: unknown function {}", op))));
+        let o = guarded(|| {
+            call(&op, &e)
+                .or_else(|| crate::curve::call(&op, &e))
+                .unwrap_or_else(|| Out::Bad(format!("harness: unknown function {}", op)))
+        });
         set_out(ev, o);
     }
 }
